@@ -115,7 +115,11 @@ def _cycles(rng, case, ctx):
 
 def _close(a, b, rtol=1e-9):
     a, b = np.asarray(a, dtype=float), np.asarray(b, dtype=float)
-    return a.shape == b.shape and bool(np.all(np.abs(a - b) <= rtol * np.abs(b) + 1e-9))
+    if a.shape != b.shape:
+        return False
+    with np.errstate(invalid="ignore"):
+        # an infinite expectation is matched only by the same infinity (inf <= inf would accept anything)
+        return bool(np.all((a == b) | (np.isfinite(a) & np.isfinite(b) & (np.abs(a - b) <= rtol * np.abs(b) + 1e-9))))
 
 
 def run_case(case, ctx):
